@@ -49,7 +49,7 @@ Gen make_desc(const eng::Raw& raw, bool plainNames, bool faShape, bool poolSymbo
 {
 	Gen g;
 	const eng::Rec h = raw.empty() ? eng::Rec{} : raw[0];
-	const size_t ns = 1 + h[1] % 5, ny = 1 + h[2] % 4;
+	const size_t ns = 1 + h[1] % 5, ny = 1 + h[2] % (poolSymbols ? 8 : 4);
 	std::set<std::string> used;
 	for (size_t i = 0; i < ns; ++i) {
 		std::string n = make_name(h[3], static_cast<uint32_t>(i), plainNames);
@@ -58,7 +58,9 @@ Gen make_desc(const eng::Raw& raw, bool plainNames, bool faShape, bool poolSymbo
 		for (char c : n) if (!isalnum(static_cast<unsigned char>(c)) && c != '_') g.punct = true;
 	}
 	used.clear();
-	static const char* pool[] = {"a", "b", "g", "f"};
+	// BDD encodings: a fixed pool, five nullary symbols first (symbols of one arity whose codes differ in the low bits only)
+	static const char* pool[] = {"a", "b", "c", "d", "e", "g", "f", "k"};
+	static const size_t poolArity[] = {0, 0, 0, 0, 0, 1, 2, 2};
 	for (size_t i = 0; i < ny; ++i) {
 		std::string n = poolSymbols ? std::string(pool[i]) + (faShape ? "" : "") : make_name(h[3] + 77, static_cast<uint32_t>(i), plainNames);
 		while (!used.insert(n).second) n += "s";
@@ -71,7 +73,7 @@ Gen make_desc(const eng::Raw& raw, bool plainNames, bool faShape, bool poolSymbo
 		AutDescription::StateTuple ch;
 		// one arity per symbol: symbol index i has arity i % 3 (FA shape: 0 for the first symbol, 1 otherwise)
 		const size_t si = r[1] % ny;
-		size_t ar = faShape ? (si == 0 ? 0 : 1) : (poolSymbols ? (si < 2 ? 0 : si - 1) : si % 3);
+		size_t ar = faShape ? (si == 0 ? 0 : 1) : (poolSymbols ? poolArity[si] : si % 3);
 		for (size_t k = 0; k < ar; ++k) ch.push_back(g.states[r[3 + k] % ns]);
 		g.desc.transitions.insert(AutDescription::Transition(ch, g.syms[si], g.states[r[2] % ns]));
 		// a symbol may be declared without a rank (the parser stores -1 for "Ops g h"): a quarter of them are
